@@ -79,6 +79,18 @@ def fmt_prim(fmt: Any) -> Optional[Tuple[int, str]]:
     return STRUCT_CODES[s], order
 
 
+def _unit_resolve(conds: frozenset) -> frozenset:
+    """`a or b or c` together with `not a`, `not b` leaves `c` (an if/elif chain whose else raises)."""
+    from .terms import assume
+    out = set(conds)
+    for x in conds:
+        if x[0] == "or":
+            r = assume(x, conds - {x})
+            if r[0] != "or":
+                out.update(conjuncts(r))
+    return frozenset(out)
+
+
 def tag_of_term(t: Term) -> Optional[int]:
     if t[0] == "call":
         for k in t[3]:
@@ -317,7 +329,7 @@ class Extractor:
             # the class may be chosen first (`message_class = X` in an if/elif chain) and decoded once: expand the conditional
             pairs: List[Tuple[frozenset, Term]] = []
             for r in rets:
-                base = frozenset(x for cj in r.pc if cj.prov in ("branch", "ret-surv") for x in conjuncts(cj.term))
+                base = frozenset(x for cj in r.pc if cj.prov in ("branch", "ret-surv", "raise-surv") for x in conjuncts(cj.term))
                 tab = decision_table(r.term)
                 if tab is None:
                     c.problems.append("%s: dispatch too branchy" % fi.qualname)
@@ -329,6 +341,7 @@ class Extractor:
             tagread: Optional[Term] = None
             ok = True
             for conds, v in pairs:
+                conds = _unit_resolve(conds)
                 recv = v[1][1]
                 if not (recv[0] == "g" and recv[1] in self.repo.classes):
                     if recv[0] == "opaque" or recv[0] == "lv":
